@@ -790,7 +790,7 @@ def template_cases(name):
 class C18(fw.Property):
     id = "C18"
     coq_props = "Props/C18.v"
-    gen_jobs = []
+    gen_jobs = ["c03_constants", "c14_message_id"]     # round 7: constants + message-ID successor tie (Proofs/C18Tie.v)
     model_imports = ["Verif.Model.C18"]
     quick_budget = 300
     thorough_budget = 6000
